@@ -243,7 +243,7 @@ func runC08(c *vh.Ctx) {
 		Arg: ast.NodeTypeNegate{UnaryNode: ast.UnaryNode{Arg: ast.NodeValue{Value: types.Long(0)}}}, Value: "foo"}}))
 	add("builder", "corner:neg-one-receiver", sg.PolicyWith(ast.NodeTypeAccess{StrOpNode: ast.StrOpNode{
 		Arg: ast.NodeTypeNegate{UnaryNode: ast.UnaryNode{Arg: ast.NodeValue{Value: types.Long(1)}}}, Value: "foo"}}))
-	// corner: method-style extension call without receiver (JSON-decodable)
+	// corner: method-style extension call without receiver (programmatic only)
 	add("builder", "corner:method-no-receiver", sg.PolicyWith(ast.NodeTypeExtensionCall{Name: "isIpv4"}))
 
 	// (2) text
@@ -309,6 +309,20 @@ func runC08(c *vh.Ctx) {
 		c.Dist("src:" + sp.src)
 		if r := vh.ExpressibleC0708(sp.p); r != "" {
 			c.Dist("not-expressible:" + r)
+			if r == vh.ReasonMethodWithoutReceiver {
+				// outside the grammar, but MarshalCedar must not panic on it (it writes the call in function style)
+				c.Res.OracleChecks++
+				var txt []byte
+				if pn := vh.Protect(func() { txt = mkPol(sp.p).MarshalCedar() }); pn != nil {
+					enc, _ := json.Marshal(vh.EncPolicy(sp.p))
+					c.Report(vh.Finding{Class: "method-call-without-receiver-panics", What: fmt.Sprintf("MarshalCedar panics on a method-style call without receiver (%s policy, %s): %v", sp.src, sp.tag, pn),
+						Check: "oracle", Op: "MarshalCedar", Input: json.RawMessage(enc), Expected: "a rendering", Actual: fmt.Sprint(pn)})
+				} else if !bytes.Contains(txt, []byte("()")) {
+					enc, _ := json.Marshal(vh.EncPolicy(sp.p))
+					c.Report(vh.Finding{Class: "method-call-without-receiver-rendering", What: fmt.Sprintf("expected a function-style rendering `f()`, got %q", txt),
+						Check: "oracle", Op: "MarshalCedar", Input: json.RawMessage(enc)})
+				}
+			}
 			continue
 		}
 		res := c08Oracle(sp.p, envs)
